@@ -85,6 +85,13 @@ class SpecCtx:
         self.ctx.solver.add(inst)
         self.ctx.axioms_used.add("lemma:" + name)
 
+    def have(self, label, cond):
+        """intermediate proof step: `cond` is PROVED here (its own obligation `have.<label>`) and then available
+        to the obligations that follow -- splits a hard goal into small ones, never assumes anything"""
+        if self.ctx is None:
+            return
+        self.ctx.prove(f"{getattr(self, 'oid_prefix', '')}have.{label}", cond)
+
     def pow2_facts(self, *exponents, products=()):
         """proof hints about pow2 (true of 2**n): ordering / constant-offset relations
         between the given exponent terms and P(a+b) == P(a)*P(b) for the given pairs"""
